@@ -113,12 +113,26 @@ def verb_class(lemma):
 
 # --------------------------------------------------------------------------------------------- model lines
 
-def arg_line(a, ids):
+POSS = {(1, "s"): "my", (1, "p"): "our", (2, "s"): "your", (2, "p"): "your", (3, "s"): "its", (3, "p"): "their"}
+
+
+def det_word(a, maje=False):
+    """the determiner's form: the/this/that by number of the noun; the possessive D("my").pe(pe).ow(ow) by owner — with
+    typ maje a first-person singular owner becomes plural (TerminalEn.check_majestic), the only effect of maje in English"""
+    if a["det"] == "my":
+        pe, ow = a.get("dpe", 1), a.get("dow", "s")
+        if maje and pe == 1 and ow == "s":
+            ow = "p"
+        return POSS[(pe, ow)]
+    return data()["dets"][a["det"]][a["n"]]
+
+
+def arg_line(a, ids, maje=False):
     if a["k"] == "np":
         D = data()
         i = ids.setdefault((a["det"], a["noun"], a["n"]), len(ids))
         return {"k": "np", "id": i, "n": a["n"], "g": D["nouns"][a["noun"]]["g"],
-                "words": [D["dets"][a["det"]][a["n"]], D["nouns"][a["noun"]][a["n"]]]}
+                "words": [det_word(a, maje), D["nouns"][a["noun"]][a["n"]]]}
     return {"k": "pro", "pe": a["pe"], "n": a["n"], "g": a["g"]}
 
 
@@ -131,15 +145,16 @@ def model_line(spec, typ, notation):
     ids = {}
     p = D["verbs"][spec["verb"]]
     # every noun phrase gets its own id, also when two are lexically equal
-    subj = arg_line(spec["subj"], ids)
+    maje = bool(typ.get("maje"))
+    subj = arg_line(spec["subj"], ids, maje)
     obj = None
     if spec.get("obj"):
-        obj = arg_line(spec["obj"], {} if spec["obj"]["k"] != "np" else ids)
+        obj = arg_line(spec["obj"], {} if spec["obj"]["k"] != "np" else ids, maje)
         if obj["k"] == "np":
             obj["id"] = 100
     pps = []
     for j, pp in enumerate(spec.get("pps", [])):
-        a = arg_line(pp["arg"], {})
+        a = arg_line(pp["arg"], {}, maje)
         a["id"] = 200 + j
         pps.append({"prep": pp["prep"], "arg": a})
     if subj["k"] == "np":
@@ -156,60 +171,104 @@ def _P():
     return pyrealb
 
 
-def render_phrase(spec):
-    """S(subj, VP(V, obj, PP(P, NP)...))"""
+def _det(P, a, L):
+    if a["det"] == "my":
+        return P.D("my", *L).pe(a.get("dpe", 1)).ow(a.get("dow", "s"))
+    return P.D(a["det"], *L)
+
+
+def render_phrase(spec, lang=None):
+    """S(subj, VP(V, obj, PP(P, NP)...)); lang="en": every constructor gets the explicit language"""
     P = _P()
+    L = (lang,) if lang else ()
+    K = {"lang": lang} if lang else {}
 
     def arg(a):
         if a["k"] == "np":
-            return P.NP(P.D(a["det"]), P.N(a["noun"]).n(a["n"]))
+            return P.NP(_det(P, a, L), P.N(a["noun"], *L).n(a["n"]), **K)
         lemma = a.get("lemma", "I")
-        return P.Pro(lemma).pe(a["pe"]).n(a["n"]).g(a["g"])
-    vp = [P.V(spec["verb"]).t(spec["t"])]
+        return P.Pro(lemma, *L).pe(a["pe"]).n(a["n"]).g(a["g"])
+    vp = [P.V(spec["verb"], *L).t(spec["t"])]
     if spec.get("obj"):
         o = dict(spec["obj"])
         if o["k"] == "pro":
             o["lemma"] = "me"
         vp.append(arg(o))
     for pp in spec.get("pps", []):
-        vp.append(P.PP(P.P(pp["prep"]), arg(pp["arg"])))
-    return P.S(arg(spec["subj"]), P.VP(*vp))
+        vp.append(P.PP(P.P(pp["prep"], *L), arg(pp["arg"]), **K))
+    return P.S(arg(spec["subj"]), P.VP(*vp, **K), **K)
 
 
-def render_dep(spec):
+def render_dep(spec, lang=None):
     """root(V, subj(N, det(D)), comp(N, det(D)), comp(P, comp(N, det(D)))...)"""
     P = _P()
+    L = (lang,) if lang else ()
+    K = {"lang": lang} if lang else {}
 
     def arg(rel, a, lemma):
         if a["k"] == "np":
-            return rel(P.N(a["noun"]).n(a["n"]), P.det(P.D(a["det"])))
-        return rel(P.Pro(lemma).pe(a["pe"]).n(a["n"]).g(a["g"]))
+            return rel(P.N(a["noun"], *L).n(a["n"]), P.det(_det(P, a, L), **K), **K)
+        return rel(P.Pro(lemma, *L).pe(a["pe"]).n(a["n"]).g(a["g"]), **K)
     deps = [arg(P.subj, spec["subj"], "I")]
     if spec.get("obj"):
         deps.append(arg(P.comp, spec["obj"], "me"))
     for pp in spec.get("pps", []):
-        deps.append(P.comp(P.P(pp["prep"]), arg(P.comp, pp["arg"], "me")))
-    return P.root(P.V(spec["verb"]).t(spec["t"]), *deps)
+        deps.append(P.comp(P.P(pp["prep"], *L), arg(P.comp, pp["arg"], "me"), **K))
+    return P.root(P.V(spec["verb"], *L).t(spec["t"]), *deps, **K)
 
 
-class _Err(io.StringIO):
-    pass
+def alter(k, v):
+    """another legal value of flag k (the value an earlier .typ() call gave before a later call overrode it)"""
+    if k == "int":
+        return "wos" if v == "yon" else "yon"
+    if k == "mod":
+        return "obli" if v == "poss" else "poss"
+    return not bool(v)
+
+
+def derive_calls(typ, hist):
+    """the .typ() history of a variant: a first call that gives the flags of `hist` ANOTHER value, then one call per such
+    flag that sets the final value (False when the flag is finally absent); the final state equals `typ`"""
+    final = dict(typ)
+    first = dict(final)
+    for k in hist:
+        first[k] = alter(k, final.get(k, False))
+    return [first] + [{k: final.get(k, False)} for k in hist]
 
 
 def impl_eval(spec, typ, notation):
-    """runs the real library; returns (canonical answer, raw tokens [(constType, lemma, realization)])"""
+    """runs the real library; returns (canonical answer, raw tokens [(constType, lemma, realization)]).
+    spec["var"] (optional): {"cur": "fr-late"} = built under loadEn(), realized while French is current;
+    {"cur": "fr-all"} = French current all along, every constructor with lang="en"; {"hist": [flags]} = the flags are set
+    by several .typ() calls, later calls overriding earlier values (derive_calls)"""
     P = _P()
-    P.loadEn()
+    var = spec.get("var") or {}
+    cur = var.get("cur")
     err = io.StringIO()
     try:
         with contextlib.redirect_stderr(err):
-            e = render_phrase(spec) if notation == "phrase" else render_dep(spec)
-            e = e.typ(dict(typ))
+            if cur == "fr-all":
+                P.loadFr()
+                lang = "en"
+            else:
+                P.loadEn()
+                lang = None
+            e = render_phrase(spec, lang) if notation == "phrase" else render_dep(spec, lang)
+            if var.get("hist"):
+                for c in derive_calls(typ, var["hist"]):
+                    e = e.typ(dict(c))
+            else:
+                e = e.typ(dict(typ))
+            if cur == "fr-late":
+                P.loadFr()
             toks = e.real()
             raw = [(t.constType, t.lemma, t.realization) for t in toks]
             text = e.detokenize(toks)
     except Exception as ex:  # noqa
+        P.loadEn()
         return {"err": type(ex).__name__}, None
+    finally:
+        P.loadEn()
     return {"toks": [r[2] for r in raw], "text": text, "w": err.getvalue().count("\n")}, raw
 
 
@@ -265,7 +324,8 @@ def forms_of(lemma):
 def arg_words(a, case=None):
     D = data()
     if a["k"] == "np":
-        return [[D["dets"][a["det"]][a["n"]], D["nouns"][a["noun"]][a["n"]]]]
+        dets = sorted({det_word(a, False), det_word(a, True)})
+        return [[d, D["nouns"][a["noun"]][a["n"]]] for d in dets]
     nom = {(1, "s"): "I", (1, "p"): "we", (3, "p"): "they"}.get((a["pe"], a["n"]))
     acc = {(1, "s"): "me", (1, "p"): "us", (3, "p"): "them"}.get((a["pe"], a["n"]))
     if a["pe"] == 2:
@@ -274,6 +334,12 @@ def arg_words(a, case=None):
         nom = {"m": "he", "f": "she"}.get(a["g"], "it")
         acc = {"m": "him", "f": "her"}.get(a["g"], "it")
     return [[nom], [acc]]
+
+
+def nom_words(a):
+    """the forms an argument takes in subject position: a noun phrase as it is, a pronoun in the nominative"""
+    w = arg_words(a)
+    return w if a["k"] == "np" else w[:1]
 
 
 def word_of(r):
@@ -436,7 +502,7 @@ def oracle_c04(spec, typ, notation, ans, raw):
     if typ.get("pas") and obj_arg is not None:
         if i not in ("wos", "was", "wod", "wad"):
             # the promoted object stands where a subject stands: before the main verb, in its nominative form
-            if find_sub(arg_words(obj_arg)[:1], 0, last_v) is None:
+            if find_sub(nom_words(obj_arg), 0, last_v) is None:
                 out.append(("passive_swap", "the object is not the subject of the passive"))
         by = [k for k, t in enumerate(toks) if t[0] == "P" and t[2] == "by"]
         prefixed_by = i in ("woi", "wai") and seqw[:1] == ["by"]
@@ -470,7 +536,7 @@ def oracle_c04(spec, typ, notation, ans, raw):
             if new_subj is not None and first_v is not None and find_sub(arg_words(new_subj), 0, first_v) is not None:
                 out.append(("questioned_constituent_dropped", "the subject is still there"))
         elif group_ok and first_v is not None:
-            sw = arg_words(new_subj)[:1] if new_subj is not None else [["it"]]
+            sw = nom_words(new_subj) if new_subj is not None else [["it"]]
             sp = find_sub(sw, 0, last_v)
             if sp is not None and first_v > sp:
                 out.append(("interrogative_fronting", "the subject precedes the first element of the verb group"))
@@ -483,7 +549,7 @@ def oracle_c04(spec, typ, notation, ans, raw):
                 # the object's place: after the main verb (and a subject that follows a fronted main verb), before
                 # the first preposition
                 lo = last_v + 1
-                for c in arg_words(subj_arg)[:1]:
+                for c in nom_words(subj_arg):
                     if seqw[lo:lo + len(c)] == c:
                         lo += len(c)
                 if lo < len(toks) and toks[lo][0] == "Adv":
@@ -527,7 +593,7 @@ def subj_desc(a, role="subj"):
         if a["noun"] not in ("cat", "mouse", "house", "man", "woman", "child"):
             d += ":noun=" + a["noun"]
         if a["det"] != "the":
-            d += ":det=" + a["det"]
+            d += ":det=" + a["det"] + ("%d%s" % (a.get("dpe", 1), a.get("dow", "s")) if a["det"] == "my" else "")
         return d
     return "pro:%d%s%s" % (a["pe"], a["n"], a["g"] if (a["pe"] == 3 and a["n"] == "s") else "")
 
@@ -539,7 +605,8 @@ def prep_class(p):
 
 def abstract_key(spec, typ):
     return (spec["verb"], json.dumps(spec["subj"], sort_keys=True), json.dumps(spec.get("obj"), sort_keys=True),
-            json.dumps(spec.get("pps", []), sort_keys=True), spec["t"], json.dumps(typ_clean(typ), sort_keys=True))
+            json.dumps(spec.get("pps", []), sort_keys=True), spec["t"], json.dumps(typ_clean(typ), sort_keys=True),
+            json.dumps(spec.get("var") or None, sort_keys=True))
 
 
 class Evaluator:
@@ -547,6 +614,7 @@ class Evaluator:
 
     def __init__(self):
         self.memo = {}
+        self.amemo = {}
 
     def run(self, spec, typ):
         key = abstract_key(spec, typ)
@@ -563,6 +631,26 @@ class Evaluator:
             a, b = res["phrase"][0], res["dep"][0]
             if a.get("text") != b.get("text") or ("err" in a) != ("err" in b) or a.get("err") != b.get("err"):
                 fails.add(("C08", "both", c08_kind(a, b)))
+            # metamorphic clauses: the same clause realized plainly (English current, one .typ() call) is the reference
+            var = spec.get("var") or {}
+            if var:
+                base = dict(spec)
+                base.pop("var")
+                bres = self.answers(base, typ)
+                for nota in ("phrase", "dep"):
+                    x, y = res[nota][0], bres[nota]
+                    if x.get("text") != y.get("text") or x.get("toks") != y.get("toks") or x.get("err") != y.get("err"):
+                        if var.get("cur"):
+                            fails.add(("C04", nota, "other_language_current"))
+                        if var.get("hist"):
+                            fails.add(("C04", nota, "typ_history"))
+            if typ.get("maje") and not has_majestic_possessive(spec):
+                t0 = {k: v for k, v in typ.items() if k != "maje"}
+                bres = self.answers(spec, t0)
+                for nota in ("phrase", "dep"):
+                    x, y = res[nota][0], bres[nota]
+                    if x.get("text") != y.get("text") or x.get("err") != y.get("err"):
+                        fails.add(("C04", nota, "maje_inert"))
             r = (res, fails)
             if len(self.memo) < 400000:
                 self.memo[key] = (None, fails)      # keep the memo small: only the verdicts
@@ -571,6 +659,22 @@ class Evaluator:
 
     def fails(self, spec, typ):
         return self.run(spec, typ)[1]
+
+    def answers(self, spec, typ):
+        """canonical answers of both notations (small memo of its own: references of the metamorphic clauses)"""
+        key = abstract_key(spec, typ)
+        r = self.amemo.get(key)
+        if r is None:
+            r = {nota: impl_eval(spec, typ, nota)[0] for nota in ("phrase", "dep")}
+            if len(self.amemo) < 200000:
+                self.amemo[key] = r
+        return r
+
+
+def has_majestic_possessive(spec):
+    """a first-person-singular possessive determiner: the one word of an English clause that typ maje changes"""
+    args = [spec["subj"], spec.get("obj")] + [p["arg"] for p in spec.get("pps", [])]
+    return any(a and a["k"] == "np" and a["det"] == "my" and a.get("dpe", 1) == 1 and a.get("dow", "s") == "s" for a in args)
 
 
 def c08_kind(a, b):
@@ -614,6 +718,26 @@ def shrink_candidates(spec, typ):
     """smaller inputs, simplest first: all lexical items at once by the first of their class, drop a flag, drop a
     complement, simpler flag values, then single lexical items"""
     t = typ_clean(typ)
+    var = spec.get("var") or {}
+    if var:
+        s2 = dict(spec)
+        s2.pop("var")
+        yield s2, t
+        for k in sorted(var):
+            v2 = {kk: vv for kk, vv in var.items() if kk != k}
+            if v2:
+                s2 = dict(spec)
+                s2["var"] = v2
+                yield s2, t
+        if var.get("cur") == "fr-all":
+            s2 = dict(spec)
+            s2["var"] = dict(var, cur="fr-late")
+            yield s2, t
+        if len(var.get("hist") or []) > 1:
+            for k in var["hist"]:
+                s2 = dict(spec)
+                s2["var"] = dict(var, hist=[k])
+                yield s2, t
     for kg, kp in ((False, False), (True, False), (True, True)):
         c = canon_spec(spec, kg, kp)
         if c != spec:
@@ -737,8 +861,12 @@ def signature(fail, spec, typ):
     head = "en|%s|%s" % ("phrase+dep" if nota == "both" else nota, clause)
     if prop == "C08":
         head = "C08-" + head
-    return "%s|t=%s|%s|v=%s|s=%s|o=%s|pp=%s" % (head, spec["t"], flags or "-", vcls,
-                                              subj_desc(spec["subj"]), subj_desc(spec.get("obj")), pps)
+    sig = "%s|t=%s|%s|v=%s|s=%s|o=%s|pp=%s" % (head, spec["t"], flags or "-", vcls,
+                                             subj_desc(spec["subj"]), subj_desc(spec.get("obj")), pps)
+    var = spec.get("var") or {}
+    if var:
+        sig += "|var=" + ",".join("%s:%s" % (k, "+".join(var[k]) if isinstance(var[k], list) else var[k]) for k in sorted(var))
+    return sig
 
 
 # --------------------------------------------------------------------------------------------- generation
@@ -769,18 +897,21 @@ def random_spec(rng, lexicon_wide=True):
         k = rng.choice(sorted(D["nouns_by"]))
         return rng.choice(D["nouns_by"][k])
 
-    def rnp():
-        return np_(rnoun(), rng.choice("sp"), rng.choice(DETS))
+    def rnp(poss=False):
+        a = np_(rnoun(), rng.choice("sp"), rng.choice(DETS))
+        if poss and rng.random() < 0.12:
+            a.update(det="my", dpe=rng.choice([1, 1, 2]), dow=rng.choice("sp"))
+        return a
 
     def rpro():
         return pro_(rng.choice([1, 2, 3]), rng.choice("sp"), rng.choice("mfn"))
     subj = rpro() if rng.random() < 0.5 else rnp()
     o = rng.random()
-    obj = None if o < 0.25 else (rnp() if o < 0.8 else rpro())
+    obj = None if o < 0.25 else (rnp(True) if o < 0.8 else rpro())
     pps = []
     for _ in range(rng.choice([0, 0, 1, 1, 2])):
         k = rng.choice(sorted(D["preps_by"]))
-        pps.append({"prep": rng.choice(D["preps_by"][k]), "arg": rnp()})
+        pps.append({"prep": rng.choice(D["preps_by"][k]), "arg": rnp(True)})
     spec = {"subj": subj, "verb": verb, "t": rng.choice(TENSES), "obj": obj, "pps": pps}
     typ = {}
     for b in BOOLS:
@@ -792,6 +923,40 @@ def random_spec(rng, lexicon_wide=True):
         typ["mod"] = rng.choice(MODS[1:])
     if rng.random() < 0.6:
         typ["int"] = rng.choice(INTS[1:])
+    if rng.random() < 0.12:
+        typ["maje"] = True
+    return spec, typ
+
+
+HIST_KEYS = ["neg", "pas", "int", "mod", "perf", "prog", "contr"]
+
+
+def random_variant(rng):
+    """a clause specification with a variant: realized while the OTHER language is current (both ways of getting
+    there), or its flags set by 2-3 .typ() calls of which the later override the earlier"""
+    spec, typ = random_spec(rng)
+    r = rng.random()
+    if r < 0.2:
+        # majestic stratum: first/second-person singular pronoun subject, few flags, verbs whose finite form shows number
+        spec["subj"] = pro_(rng.choice([1, 1, 2]), "s", rng.choice("mfn"))
+        spec["verb"] = rng.choice(["be", "be", "be", "have", "do", "eat"])
+        spec["t"] = rng.choice(["p", "p", "ps"])
+        typ = {k: v for k, v in typ.items() if k in ("neg", "int", "contr") and rng.random() < 0.4}
+        typ["maje"] = True
+        return spec, typ
+    if r < 0.6:
+        # language stratum, biased to what reads the lexicon late: passives, pronoun arguments, tags
+        if rng.random() < 0.5:
+            typ["pas"] = True
+        if rng.random() < 0.6:
+            spec["subj"] = pro_(rng.choice([1, 2, 3]), rng.choice("sp"), rng.choice("mfn"))
+        spec["var"] = {"cur": rng.choice(["fr-late", "fr-all"])}
+    else:
+        ks = rng.sample(HIST_KEYS[:4], 1) if rng.random() < 0.7 else rng.sample(HIST_KEYS, 2)
+        for k in ks:            # make the final value of an overridden flag interesting half of the time
+            if rng.random() < 0.5:
+                typ[k] = {"int": rng.choice(INTS[1:]), "mod": rng.choice(MODS[1:])}.get(k, True)
+        spec["var"] = {"hist": ks}
     return spec, typ
 
 
@@ -803,6 +968,10 @@ def _work(task):
     core.ensure_repo_on_path()
     if kind == "product":
         items = list(full_product(*arg))
+    elif kind == "variants":
+        seed, n = arg
+        rng = random.Random(seed)
+        items = [random_variant(rng) for _ in range(n)]
     else:
         seed, n, wide = arg
         rng = random.Random(seed)
@@ -830,8 +999,8 @@ def _work(task):
         for nota in ("phrase", "dep"):
             line = lines[li]
             ans = full[nota][0]
-            if model is None:
-                m2 = ans
+            if model is None or (spec.get("var") or {}).get("cur"):
+                m2 = ans          # the model has no notion of a current language: that stratum is judged by the oracle
             else:
                 m = model[li]
                 if "driver_error" in m:
@@ -849,6 +1018,11 @@ def _work(task):
                 res["digests"].append(int.from_bytes(hashlib.md5(core.canon([line["spec"], line["typ"], nota, ans]).encode()).digest()[:7], "big"))
             if len(res["samples"]) < 2:
                 res["samples"].append({"line": line, "answer": ans})
+            for k, v in (spec.get("var") or {}).items():
+                key = "var:%s=%s" % (k, v if isinstance(v, str) else "+".join(v))
+                res["dist"][key] = res["dist"].get(key, 0) + 1
+            if tc.get("maje"):
+                res["dist"]["maje"] = res["dist"].get("maje", 0) + 1
             for k in ("int", "mod"):
                 key = "%s=%s" % (k, tc.get(k, "-"))
                 res["dist"][key] = res["dist"].get(key, 0) + 1
@@ -873,6 +1047,12 @@ def _work(task):
                 if f[0] == "C04":
                     a, raw = impl_eval(ms, mt, f[1])
                     det["clause"] = [d for c, d in oracle_c04(ms, mt, f[1], a, raw) if c == f[2]]
+                    if f[2] in ("other_language_current", "typ_history", "maje_inert"):
+                        ref = {k: v for k, v in ms.items() if k != "var"}
+                        rt = {k: v for k, v in mt.items() if not (f[2] == "maje_inert" and k == "maje")}
+                        det["clause"] = ["the same clause realized plainly (English current, one .typ() call%s) gives %r"
+                                         % (", no maje" if f[2] == "maje_inert" else "",
+                                            impl_eval(ref, rt, f[1])[0].get("text"))]
                 res["fails"][sig] = {"sig": sig, "input": inp, "detail": det, "count": 1}
             else:
                 old["count"] += 1
@@ -914,6 +1094,8 @@ def sweep(ctx, want=("C04", "C08"), label="clause", oracle_only=None):
                 tasks.append(("product", (v, sj), ctx.driver, want, oracle_only))
         for k in range(48):
             tasks.append(("sample", (ctx.rng.getrandbits(48), 2000, True), ctx.driver, want, oracle_only))
+        for k in range(32):
+            tasks.append(("variants", (ctx.rng.getrandbits(48), 1500), ctx.driver, want, oracle_only))
         ctx.exhaustive = True
         ctx.notes["exhaustive_scope"] = ("4 tenses x 6 mod x perf x prog x pas x neg x contr x 14 int, for each of the %d panel verbs "
                                          "x %d subjects (object of the opposite number, one prepositional complement), both notations"
@@ -923,6 +1105,8 @@ def sweep(ctx, want=("C04", "C08"), label="clause", oracle_only=None):
         per = 500
         for k in range(n // per):
             tasks.append(("sample", (ctx.rng.getrandbits(48), per, True), ctx.driver, want, oracle_only))
+        for k in range(max(4, n // 2500)):
+            tasks.append(("variants", (ctx.rng.getrandbits(48), 400), ctx.driver, want, oracle_only))
     nproc = min(16, os.cpu_count() or 1)
     with multiprocessing.get_context("fork").Pool(nproc) as pool:
         results = pool.map(_work, tasks, chunksize=1)
